@@ -289,7 +289,30 @@ fn check_header_standalone(ctx: &mut Ctx, block_tag: u64, bytes: &[u8], kind: &s
     }
 }
 
+/// Fault injection between identity hashes: a value whose `Encode` writes a few bytes and then panics is
+/// pushed through the library's CBOR hashing entry points under `catch_unwind`, on the thread that
+/// computes the next identifiers. A failed hash of something else must leave no trace in them.
+struct FaultyEncode(u8);
+impl<C> minicbor::Encode<C> for FaultyEncode {
+    fn encode<W: minicbor::encode::Write>(&self, e: &mut minicbor::Encoder<W>, _ctx: &mut C) -> Result<(), minicbor::encode::Error<W::Error>> {
+        e.array(3)?.u8(self.0)?.bytes(&[self.0; 9])?;
+        panic!("pv: injected encoder fault");
+    }
+}
+fn inject_hash_fault(ctx: &mut Ctx) {
+    let k = ctx.rng.next_u8();
+    let _ = pv::panics::catch(|| match k % 3 {
+        0 => { let _ = pallas_crypto::hash::Hasher::<256>::hash_cbor(&FaultyEncode(k)); }
+        1 => { let _ = pallas_crypto::hash::Hasher::<256>::hash_tagged_cbor(&FaultyEncode(k), k); }
+        _ => { let _ = pallas_crypto::hash::Hasher::<224>::hash_tagged_cbor(&FaultyEncode(k), 0); }
+    });
+    ctx.count("injected_encoder_faults_before_identity_hash");
+}
+
 fn check_block(ctx: &mut Ctx, bytes: &[u8], kind: &str) -> bool {
+    if ctx.rng.chance(1, 6) {
+        inject_hash_fault(ctx);
+    }
     let sp = match spans::block_spans(bytes) {
         Ok(s) => s,
         Err(_) => {
@@ -340,6 +363,9 @@ fn check_block(ctx: &mut Ctx, bytes: &[u8], kind: &str) -> bool {
 }
 
 fn check_tx_standalone(ctx: &mut Ctx, bytes: &[u8], era: Option<Era>, kind: &str) -> bool {
+    if ctx.rng.chance(1, 6) {
+        inject_hash_fault(ctx);
+    }
     let Ok(top) = cbor::parse(bytes) else {
         ctx.count("own_model_does_not_apply");
         return false;
